@@ -144,3 +144,5 @@ import Hm.Statements
 #print axioms gunzipR_gzipStored
 #print axioms C15_zlibStored_every_prefix_rejected
 #print axioms C15_rawStored_every_prefix_rejected
+#print axioms C15_decodeBody_truncated_gzip
+#print axioms C13_decodeBody_gzip
